@@ -499,10 +499,21 @@ def features(prog):
             f["extreme_p"] = True
     f["contra_ev"] = False
     f["contra_cyc"] = False
+    # predicates on a positive cycle, and everything such a predicate calls: a FALSE proof of any of them is handed to a define
+    # node that is being evaluated inside the cycle
+    cone = set(cyc)
+    for c in cyc:
+        st = [c]
+        while st:
+            x = st.pop()
+            for y in dep.get(x, ()):
+                if y not in cone:
+                    cone.add(y)
+                    st.append(y)
     for heads, body, _p in rules:
         # a body literal that contradicts an evidence atom makes the body deterministically FALSE after evidence
         # propagation: the same 'false proof' mechanism as a syntactic contradiction (known finding KF-A)
-        oncyc = any(h[0] in cyc for h in heads)
+        oncyc = any(h[0] in cone for h in heads)
         for l in body:
             for e, v in prog["evidence"]:
                 if e[0] == l[0] and bool(v) == bool(l[2]) and all(x == y or isvar(x) for x, y in zip(l[1], e[1])):
@@ -511,7 +522,7 @@ def features(prog):
                         f["contra_cyc"] = True
     for heads, body, _p in rules:
         pos = [l for l in body if not l[2]]
-        oncyc = any(h[0] in cyc for h in heads)
+        oncyc = any(h[0] in cone for h in heads)
         for n in [l for l in body if l[2]]:
             f["has_neg"] = True
             for q in pos:
@@ -552,7 +563,21 @@ def cyclic_preds(prog):
                 if y not in seen:
                     seen.add(y)
                     st.append(y)
-    return out
+    # plus everything a cyclic predicate calls (positively or negatively): see features()
+    alldep = {}
+    for heads, body, _p in rules_of(prog):
+        for h in heads:
+            for l in body:
+                alldep.setdefault(h[0], set()).add(l[0])
+    cone = set(out)
+    st = list(out)
+    while st:
+        x = st.pop()
+        for y in alldep.get(x, ()):
+            if y not in cone:
+                cone.add(y)
+                st.append(y)
+    return cone
 
 
 def refine_with_reference(F, R):
